@@ -261,7 +261,7 @@ func (p *P) cleanRun(r *core.Result, src *tape.Source, trace bool) {
 	g := gen.G{S: src}
 	nRel := 1 + src.Intn(3, "c09.nrel")
 	for i := 0; i < nRel; i++ {
-		how := src.Intn(4, "c09.how")
+		how := src.Intn(6, "c09.how")
 		desc := ""
 		var put func()
 		switch how {
@@ -286,6 +286,10 @@ func (p *P) cleanRun(r *core.Result, src *tape.Source, trace bool) {
 			fl.fill(reflect.ValueOf(obj).Elem(), 2+src.Intn(2, "c09.depth"))
 			desc = fmt.Sprintf("%T filled by reflection -> ast.PutExpression", obj)
 			put = func() { ast.PutExpression(obj) }
+		case 4, 5: // any public operation, results released: exercises the library's own release paths (error paths included)
+			op := ops.Gen(src, holdKinds)
+			desc = "operation " + op.String() + " (results released)"
+			put = func() { op.Exec(false) }
 		default: // a parsed tree through ReleaseAST
 			sql := g.Valid()
 			tree, err := gosqlx.Parse(sql)
@@ -302,11 +306,15 @@ func (p *P) cleanRun(r *core.Result, src *tape.Source, trace bool) {
 			r.Tracef(trace, "  (Put panicked: "+msg+")")
 		}
 		ctl.Mode = pool.AlwaysMiss
-		r.Faults["release."+[]string{"typed-put", "typed-put", "PutExpression", "ReleaseAST"}[how]]++
+		r.Faults["release."+[]string{"typed-put", "typed-put", "PutExpression", "ReleaseAST", "operation", "operation"}[how]]++
 	}
 	// drain every public getter with the pool forced to hit
 	ctl.Mode = pool.HitNewest
 	recycled := 0
+	// everything the getters hand out during the drain is held (never put back):
+	// the same pointer twice means it sat in a pool twice (double put, or a node
+	// that was stored in two places of a released tree)
+	handed := map[uintptr]string{}
 	for pass := 0; pass < 12; pass++ {
 		total := 0
 		for _, pi := range simhook.Pools() {
@@ -324,6 +332,12 @@ func (p *P) cleanRun(r *core.Result, src *tape.Source, trace bool) {
 			}
 			recycled++
 			r.Evals++
+			if ptr := ptrOf(got); ptr != 0 {
+				if _, dup := handed[ptr]; dup {
+					r.Fail("pool-never-hands-out-a-live-object", e.Type, fmt.Sprintf("while draining after the releases, the public getter for %s returned the same object twice although it was never put back in between: it sat in the pool twice", e.Type))
+				}
+				handed[ptr] = e.Type
+			}
 			if c := canon.Of(got); c != e.clean {
 				for _, field := range fieldDiff(got, mustClean(e)) {
 					r.Fail("pooled-node-clean", fmt.Sprintf("%s.%s", strings.TrimPrefix(e.Type, "*"), field),
@@ -423,7 +437,8 @@ type taskState struct {
 }
 
 var holdKinds = []ops.Kind{ops.TokenizeDirect, ops.TokenizePooled, ops.Parse, ops.ParseCtx, ops.ParseMultiple, ops.ParseRecovery,
-	ops.ParserParseBytes, ops.ParserParseBytesWithTokens, ops.ParserDialect, ops.TreeSQL, ops.Extract, ops.ScanSQL, ops.ScanTree, ops.Lint, ops.Format, ops.FormatterFormat}
+	ops.ParserParseBytes, ops.ParserParseBytesWithTokens, ops.ParserDialect, ops.TreeSQL, ops.Extract, ops.ScanSQL, ops.ScanTree, ops.Lint, ops.Format, ops.FormatterFormat,
+	ops.ParserStrict, ops.ParserPooledOptions, ops.ParserPositions, ops.Validate, ops.ValidateMultiple, ops.ParserValidate}
 
 func ptrOf(v any) uintptr {
 	rv := reflect.ValueOf(v)
@@ -436,6 +451,7 @@ func ptrOf(v any) uintptr {
 func (p *P) ownRun(r *core.Result, src *tape.Source, trace bool) {
 	nTasks := 1 + src.Intn(3, "c09.tasks")
 	mode := []pool.Mode{pool.HitNewest, pool.Mixed, pool.HitOldest, pool.AlwaysMiss}[src.Intn(4, "c09.poolmode")]
+	focus := src.Intn(len(poolTable), "c09.focus") // most get-node steps of a run use one type: makes get/release/get chains likely
 	tasks := make([]*taskState, nTasks)
 	for t := range tasks {
 		ts := &taskState{}
@@ -447,7 +463,11 @@ func (p *P) ownRun(r *core.Result, src *tape.Source, trace bool) {
 			case k <= 6:
 				ts.steps = append(ts.steps, step{kind: 1, arg: src.Intn(8, "c09.which")})
 			case k <= 8:
-				ts.steps = append(ts.steps, step{kind: 2, arg: src.Intn(len(poolTable), "c09.getter")})
+				g := focus
+				if src.Intn(4, "c09.otherType") == 3 {
+					g = src.Intn(len(poolTable), "c09.getter")
+				}
+				ts.steps = append(ts.steps, step{kind: 2, arg: g})
 			default:
 				ts.steps = append(ts.steps, step{kind: 3})
 			}
